@@ -44,6 +44,12 @@ claimed = {
  "C17": dict(level="other", text="Bounded schedule exploration of the VM's spawn/Wait machinery inside the engine (scheduling decisions at blocking operations are fork variables, at most 2 deviations from the default order) with symbolic spawn arguments, plus a happens-before (vector clock) monitor on every Go map shared between goroutines; a reported race is replayed natively under the race detector.",
              note="1..2 spawned cores; preemption between synchronisation points is NOT explored (only the happens-before argument speaks to it); the monitor covers Go maps (VM globals, program tables), not slices or struct fields; GOMAXPROCS effects and races inside host code outside. Trusted: go/ssa, gosym scheduler/HB model.",
              technique="bounded schedule exploration in the symbolic executor + vector-clock happens-before monitor", design="§2 C17"),
+ "C14": dict(level="other", text="Bounded symbolic execution of analyse+compile+run on both back ends in map-order nondeterminism mode: the order of every range over a Go map in the repository's packages is a fork variable; the observable result must be identical on every explored path and for a second run in the same path.",
+             note="6 programs; at most 1 deviating map range per path (all orders of that range); diagnostics compared as a sorted multiset; goroutine timing of single-core programs is explored only in the default schedule; hash-seed effects other than iteration order outside. A nondeterminism counterexample is confirmed natively by repeating the run (up to 200 times) until two different results appear. Trusted: go/ssa, gosym.",
+             technique="bounded symbolic execution (go/ssa) with map-iteration order as fork variable", design="§2 C14"),
+ "C15": dict(level="other", text="Bounded symbolic execution of the whole pipeline on a module-graph family with selectors for visibility, imports, missing items/modules and cycles, in map-order mode (module visiting orders are fork variables); diagnostics and outputs are compared with what the linking rules prescribe.",
+             note="3 modules, one function/global/type each plus private same-named items; import templates/triggers and host builtin modules outside; 1 deviating map order per path. Trusted: go/ssa, gosym.",
+             technique="bounded symbolic execution (go/ssa), exhaustive over module-graph selectors and single map-order deviations", design="§2 C15"),
  "C05": dict(level="other", text="Bounded symbolic execution of lexer (and parser/analyzer as they are added) with Go run-time panics and step-bound overruns as path outcomes; within the stated bounds no input makes the code panic or fail to make progress.",
              note="Lexer step totality/progress on windows of K runes (quick 3 / thorough 5); Parser.Parse over every sequence of <= L tokens with symbolic kinds and an optional (sticky or consumed) lexer error, L = 3 quick / 5 thorough, step bound 300k as termination obligation (token kind formatting stubbed). Analyzer totality on edited programs: see evidence. 64 KiB / depth-1000 inputs are not executed (outside). Trusted: go/ssa, gosym, z3.",
              technique="bounded symbolic execution (go/ssa) + SMT (z3), panic/bound outcomes", design="§2 C05"),
